@@ -522,6 +522,66 @@ func runC20(r *Run) {
 	}
 	ic.Done()
 
+	// ---- no copying string conversion on a hot path
+	sc := r.Rule("C20.strconv", "no conversion between []byte and string lies on a success path of the hot closure, except where the compiler is known not to copy (string(b) used only as a map key, in a comparison, or ranged over): the runtime copies the bytes, into a 32-byte stack buffer when the result does not escape and onto the heap for anything longer - an allocation that depends on the size of the value and that no escape diagnostic shows", 0)
+	{
+		n := 0
+		for _, fn := range hot {
+			eachInstr(fn, func(b *ssa.BasicBlock, i int, in ssa.Instruction) {
+				cv, ok := in.(*ssa.Convert)
+				if !ok {
+					return
+				}
+				isStr := func(t types.Type) bool {
+					bt, ok := t.Underlying().(*types.Basic)
+					return ok && bt.Info()&types.IsString != 0
+				}
+				isBytes := func(t types.Type) bool {
+					sl, ok := t.Underlying().(*types.Slice)
+					if !ok {
+						return false
+					}
+					bt, ok := sl.Elem().Underlying().(*types.Basic)
+					return ok && (bt.Kind() == types.Byte || bt.Kind() == types.Uint8)
+				}
+				if !(isStr(cv.Type()) && isBytes(cv.X.Type()) || isBytes(cv.Type()) && isStr(cv.X.Type())) {
+					return
+				}
+				if _, isC := cv.X.(*ssa.Const); isC {
+					return
+				}
+				if !canSucceed(p, fn, b) {
+					return
+				}
+				// uses the compiler performs without copying: string(b) compared, used as map key, or ranged over
+				allFree := len(*cv.Referrers()) > 0
+				for _, u := range *cv.Referrers() {
+					switch y := u.(type) {
+					case *ssa.BinOp:
+						if y.Op != token.EQL && y.Op != token.NEQ && y.Op != token.LSS && y.Op != token.GTR && y.Op != token.LEQ && y.Op != token.GEQ {
+							allFree = false
+						}
+					case *ssa.Lookup:
+						if y.Index != ssa.Value(cv) {
+							allFree = false
+						}
+					case *ssa.Range, *ssa.DebugRef:
+					default:
+						allFree = false
+					}
+				}
+				if allFree && isStr(cv.Type()) {
+					sc.Instance(fnName(fn)+"|"+exprDepth(cv, 0), false, map[string]string{"fn": fnName(fn), "conversion": exprDepth(cv, 0), "class": "not copied by the compiler (comparison / map key / range)"})
+					return
+				}
+				n++
+				sc.Violation(fn, instrPos(cv), "conversion "+exprDepth(cv, 0), "the conversion copies the bytes: values longer than the runtime's 32-byte temporary are copied onto the heap on every call, however warm the message and the destinations are")
+			})
+		}
+		sc.Instance("hot closure", true, map[string]int{"functions": len(hot), "copying_conversions_on_success_paths": n})
+	}
+	sc.Done()
+
 	// the attribute list narrowed for a callback is restored on every exit: a list left narrowed has lost capacity and the next decode allocates (shared with C07)
 	r.Borrow("C07", map[string]string{"C07.restore": "C20.restore"})
 }
